@@ -58,6 +58,7 @@ def job_of(contract, reg, mod, pid, obligation):
         'params': params, 'ghost': {p: ser_kind(k) for p, k in contract.ghost.items()},
         'requires': contract.requires, 'ensures': contract.ensures, 'raises': contract.raises,
         'may_raise': contract.may_raise, 'generator': contract.yields is not None, 'spec_source': spec_src,
+        'native_gen': contract.native_gen, 'ghost_post_native': contract.ghost_post,
     }
 
 
@@ -195,6 +196,8 @@ def make_replay(pid, name, ob, res, contract, reg, mod):
                     inp[p] = None
             candidates.append(inp)
             break
+        if contract.native_gen:
+            candidates = []
         for inp in candidates:
             j2 = dict(job)
             j2['input'] = inp
